@@ -58,7 +58,9 @@ class MessageHandler(Virtual):
         """We put MBOX-MESSAGE in here so we don't have to re-check
         the first line of the mbox file before returning a true or false
         result."""
-        if not self.selectorargs:
+        if not self.selectorargs or type(self.vfs) is not VFS_Real:
+            # The mailbox module opens the path itself: it must be a path on
+            # the real filesystem, not a name inside an archive.
             return False
 
         pattern = "^" + self.getargflag() + r"(\d+)$"
@@ -135,7 +137,7 @@ class MBoxFolderHandler(FolderHandler):
         """Figure out if this is a handleable request."""
         # Must be a real file
         if (
-            not isinstance(self.vfs, VFS_Real)
+            type(self.vfs) is not VFS_Real
             or self.selectorargs
             or not self.statresult
             or not stat.S_ISREG(self.statresult[stat.ST_MODE])
@@ -180,7 +182,7 @@ class MBoxMessageHandler(MessageHandler):
 
 class MaildirFolderHandler(FolderHandler):
     def canhandlerequest(self):
-        if not isinstance(self.vfs, VFS_Real):
+        if type(self.vfs) is not VFS_Real:
             return 0
         if self.selectorargs:
             return 0
@@ -191,7 +193,7 @@ class MaildirFolderHandler(FolderHandler):
         )
 
     def prepare(self):
-        self.mbox = Maildir(self.getfspath())
+        self.mbox = Maildir(self.getfspath(), create=False)
         super().prepare()
 
     def getargflag(self):
